@@ -91,7 +91,7 @@ class Layout:
         ba = bool(case.get("ba"))
         if not bags or any(not b for b in bags) or any(not p for b in bags for p in b):
             raise HarnessError("case has an empty bag or partition: %r" % (bags,))
-        if self.m < 1 or self.wpc < 1 or self.spill < 0 or self.min_part < 1:
+        if self.m < 1 or self.wpc < 1 or self.spill < 0 or self.min_part < 0:
             raise HarnessError("bad config in case")
         self.bags: List[List[List[Tuple[bytes, int]]]] = []
         self.observed: List[List[int]] = []
@@ -118,7 +118,7 @@ class Layout:
         self.expected = self.header + self.body + self.footer
         self.final_multi = self.has_writer and self.ftr_n is None and len(bags[-1][-1]) >= 2
         self.small_spill = self.has_writer and 0 < self.spill < self.m
-        self.far_part = self.has_writer and self.min_part > 1
+        self.far_part = self.has_writer and self.min_part != 1
 
     def max_part(self, npartitions: Optional[int] = None) -> int:
         n = self.npartitions if npartitions is None else npartitions
@@ -556,7 +556,7 @@ def s_case(draw, flags=(0, 0, 0), writer=True, l2=False):
     wpc = draw(st.sampled_from([1, 1, 2, 2, 3, 4]))
     hdr = draw(st.sampled_from([None, None, 0, 1, m - 1, m, m + 3]))
     ftr = None if final_multi else draw(st.sampled_from([None, None, None, 0, 1, m, 2 * m + 1]))
-    min_part = draw(st.sampled_from([2, 3, 7, 100])) if far_part else 1
+    min_part = draw(st.sampled_from([0, 0, 2, 3, 7, 100])) if far_part else 1
     slack = draw(st.sampled_from([0, 0, 1, 50]))
     kw = draw(st.booleans())
     size = st.one_of(
